@@ -204,3 +204,51 @@ def stale_drop_rule(rep, u, fname="r_buf_rpos_check"):
     if n == 0:
         rep.proved("R-STALEDROP", fn, "drop-from-reader-indexed-entry", "%s: the dropped amount does not depend on the block-table entry at the reader's index" % fname, "")
     return max(n, 1)
+
+
+
+def near_index_rule(rep, u, fname="r_buf_rpos_init_near"):
+    """the search over the caller's reader array consults existing elements only: after the loop `for (i = 1; i < cnt; i++)`
+    the index may equal cnt (the new reader is ahead of all), and rposs[i] is then behind the array - an exit for i == cnt
+    lies between the loop and the first use of rposs[i]"""
+    from rules import r_mpt
+    fn = u.fn(fname)
+    if fn is None or not fn.has_cfg:
+        return 0
+    rep.functions.add(fname)
+    loops = fn.loops()
+    if not loops:
+        raise driver.AnalysisBroken("%s: search loop not found" % fname)
+    h = max(loops, key=lambda x: len(loops[x]))
+    body = loops[h]
+    hc = fn.blocks[h].cond
+    ivar = [y for y, _ in _walk(hc) if core.is_ref(y) and y.get("dk") == "local"] if hc is not None else []
+    cnt = [y for y, _ in _walk(hc) if core.is_ref(y) and y.get("dk") == "parm"] if hc is not None else []
+    if not ivar or not cnt:
+        raise driver.AnalysisBroken("%s: loop index / count not found" % fname)
+    iid, cid = ivar[0]["id"], cnt[0]["id"]
+    uses = [pos for pos, r, x, _ in fn.nodes() if x.get("k") == "sub" and core.is_ref(core.strip_casts(x["i"])) and core.strip_casts(x["i"]).get("id") == iid and pos[0] not in body]
+    if not uses:
+        rep.proved("R-NEARIDX", fn, "index-inside-array", "%s: no use of the loop index as a subscript after the loop" % fname, "")
+        return 1
+    ok = False
+    for bid in fn.reachable_blocks():
+        c = fn.blocks[bid].cond
+        if c is None or bid in body or bid == h or not all(fn.dominates(bid, u_[0]) for u_ in uses) or h not in fn.reach_from([fn.entry]) or bid not in fn.reach_from([h]):
+            continue
+        ai = [y for y, _ in _walk(c) if core.is_ref(y) and y.get("id") == iid]
+        ac = [y for y, _ in _walk(c) if core.is_ref(y) and y.get("id") == cid]
+        if not ai or not ac:
+            continue
+        try:
+            v = r_mpt.eval_expr(c, dict([(id(a), 7) for a in ai] + [(id(a), 7) for a in ac]))
+        except r_mpt.Unknown:
+            continue
+        s_ = fn.blocks[bid].succ[0] if v else fn.blocks[bid].succ[1]
+        if s_ is None or not any(u_[0] in fn.reach_from([s_], avoid=[bid]) or u_[0] == s_ for u_ in uses):
+            ok = True
+    desc = "%s: rposs[i] is used after the search loop only when i < rposs_cnt" % fname
+    (rep.proved if ok else rep.violated)("R-NEARIDX", fn, "index-inside-array", desc, "" if ok else
+                                         "a new reader ahead of every listed reader leaves the loop with i == rposs_cnt: &rposs[rposs_cnt] is read, written by the check and may be copied out "
+                                         "as the new cursor (heap-buffer-overflow with two readers at blocks 0 and 1 and four blocks committed)")
+    return 1
